@@ -102,11 +102,12 @@ def solve_scipy(
                 variable_names=[v.name for v in non_continuous],
             )
         else:
-            warnings.warn(
+            from optyx.solvers import warn_always
+
+            warn_always(
                 f"Variables [{names}] have integer/binary domains but will be relaxed "
                 f"to continuous. SciPy solver does not support integer programming. "
                 f"For true MIP, consider PuLP or Pyomo.",
-                UserWarning,
                 stacklevel=3,
             )
 
